@@ -579,8 +579,20 @@ func (g *ttlGen) graphBlock() {
 		g.use("default-graph-block")
 	case k < 3:
 		g.sb.WriteString(hx.Pick(g.r, []string{"GRAPH", "graph", "Graph"}))
-		g.ws(true)
-		g.graph = g.graphLabel()
+		if g.r.Chance(1, 4) {
+			// the keyword needs no white space before '<' or '['
+			pos := g.sb.Len()
+			g.graph = g.graphLabel()
+			if cur := g.sb.String(); cur[pos] == '<' || cur[pos] == '[' {
+				g.use("GRAPH-tight")
+			} else {
+				g.sb.Reset()
+				g.sb.WriteString(cur[:pos] + " " + cur[pos:])
+			}
+		} else {
+			g.ws(true)
+			g.graph = g.graphLabel()
+		}
 		g.use("GRAPH")
 	default:
 		g.graph = g.graphLabel()
